@@ -397,11 +397,20 @@ def main(argv=None):
             print('REPLAY: passes')
             return 0
 
-        # 5. run
-        ctx = Ctx(prop_id, tier, seed, lean)
+        # 5. run (a changed fingerprint of a mirrored function = model possibly stale:
+        #    not a violation, but the search runs with the thorough budget)
+        stale_keys = []
+        if getattr(mod, 'MIRRORS', None):
+            import fingerprint
+            stale_keys, _cur = fingerprint.stale(prop_id, stage.REPO, mod.MIRRORS)
+            if stale_keys:
+                log('mirrored source changed since the model was written (%s): using the thorough budget'
+                    % ', '.join(stale_keys[:6]))
+        run_tier = 'thorough' if (stale_keys and tier == 'quick') else tier
+        ctx = Ctx(prop_id, run_tier, seed, lean)
         run_property(mod, ctx, log)
         escalated = False
-        if (ctx.disagreements or proof_broken) and not ctx.violations and tier == 'quick':
+        if (ctx.disagreements or proof_broken) and not ctx.violations and run_tier == 'quick':
             log('proof obligation or correspondence broken; escalating the search to the thorough budget')
             ctx2 = Ctx(prop_id, 'thorough', seed + 1, lean, escalated=True)
             ctx2.disagreements = list(ctx.disagreements)
@@ -471,6 +480,7 @@ def main(argv=None):
             'known_findings_hit': sorted(known_hit),
             'disagreements': len(ctx.disagreements),
             'escalated': escalated,
+            'model_stale': stale_keys,
             'ext_cache': sinfo,
         }
         if gen_info:
